@@ -162,7 +162,9 @@ var Int = NewScalar(ScalarConfig{
 		switch valueAST := valueAST.(type) {
 		case *ast.IntValue:
 			if intValue, err := strconv.Atoi(valueAST.Value); err == nil {
-				return intValue
+				// a literal outside 32 bits is not an Int, exactly like the
+				// same number supplied through a variable
+				return coerceInt(intValue)
 			}
 		}
 		return nil
